@@ -39,6 +39,50 @@ type vOuter struct {
 	Tags  []string `json:"tags"`
 }
 
+// vLoose has no field of type Binary: whether a value of it carries attachments depends on the value (a slice, a map, an interface-typed
+// field), not on the type.
+type vLoose struct {
+	Title string         `json:"title"`
+	Parts []Bin          `json:"parts"`
+	Bins  map[string]Bin `json:"bins"`
+	Any   any            `json:"any"`
+	Items []vLooseItem   `json:"items"`
+}
+
+type vLooseItem struct {
+	K    string `json:"k"`
+	Blob []Bin  `json:"blob"`
+}
+
+func genLoose(t *rapid.T, g *valGen) vLoose {
+	o := vLoose{Title: genString(t, g)}
+	if rapid.Bool().Draw(t, g.l("plain")) {
+		return o // the same type without any attachment
+	}
+	for i, n := 0, rapid.IntRange(0, 2).Draw(t, g.l("parts")); i < n; i++ {
+		if b := genBin(t, g); b != nil {
+			o.Parts = append(o.Parts, b)
+		}
+	}
+	if rapid.Bool().Draw(t, g.l("bins")) {
+		o.Bins = map[string]Bin{}
+		if b := genBin(t, g); b != nil {
+			o.Bins[rapid.SampledFrom([]string{"x", "y"}).Draw(t, g.l("bk"))] = b
+		}
+	}
+	if rapid.Bool().Draw(t, g.l("any")) {
+		o.Any = []any{genDyn(t, g, 2, true)}
+	}
+	for i, n := 0, rapid.IntRange(0, 2).Draw(t, g.l("items")); i < n; i++ {
+		it := vLooseItem{K: genString(t, g)}
+		if b := genBin(t, g); b != nil {
+			it.Blob = []Bin{b}
+		}
+		o.Items = append(o.Items, it)
+	}
+	return o
+}
+
 var (
 	binType   = reflect.TypeOf(Bin(nil))
 	bytesType = reflect.TypeOf([]byte(nil))
@@ -240,6 +284,11 @@ var shapes = []shape{
 			o.Tags = append(o.Tags, genString(t, g))
 		}
 		return o
+	}},
+	{Name: "loose", Type: reflect.TypeOf(vLoose{}), Gen: func(t *rapid.T, g *valGen) any { return genLoose(t, g) }},
+	{Name: "ploose", Type: reflect.TypeOf(&vLoose{}), Gen: func(t *rapid.T, g *valGen) any {
+		v := genLoose(t, g)
+		return &v
 	}},
 	{Name: "mapbin", Type: reflect.TypeOf(map[string]Bin(nil)), Gen: func(t *rapid.T, g *valGen) any {
 		m := map[string]Bin{}
